@@ -163,17 +163,18 @@ def spellings(seed, rng, n):
     canon = '=' + ' '.join(seed)
     for k in range(n):
         parts = ['=']
-        mode = k % 4
+        mode = k % 7                        # 0..5: one kind of gap everywhere; 6: random gaps
         for i, t in enumerate(seed):
             tt = t
-            if t == ',' and (k // 4) % 2 == 1:
+            if t == ',' and (k // 7) % 2 == 1:
                 tt = ';'
             if i == 0:
-                gap = ['', ' ', '  ', ''][mode] if mode != 3 else rng.choice(['', ' ', '   '])
+                gap = ['', ' ', '  ', '', '', ''][mode] if mode != 6 else rng.choice(['', ' ', '   '])
             else:
                 prev = seed[i - 1]
-                choices = [' ', '  ', '\t', ' \n '] if alnum_edge(prev, t) else ['', ' ', '  ', '\t']
-                gap = choices[mode % len(choices)] if mode != 3 else rng.choice(choices)
+                # blanks, tabs and line breaks (Alt+Enter inside a formula) are all whitespace between tokens
+                choices = [' ', '  ', '\t', '\n', ' \n ', '\r\n'] if alnum_edge(prev, t) else ['', ' ', '  ', '\t', '\n', '\r\n']
+                gap = choices[mode] if mode != 6 else rng.choice(choices)
             parts.append(gap + tt)
         out.append(''.join(parts))
     return canon, out
@@ -196,7 +197,7 @@ def meta_job(args):
 
 
 def meta(run):
-    n = 12 if run.quick else 64
+    n = 21 if run.quick else 70
     res = core.pmap(meta_job, [(s, run.seed * 31 + i, n) for i, s in enumerate(META_SEEDS)], chunksize=1)
     for seed, (canon, ref, cnt, bad) in zip(META_SEEDS, res):
         if canon is None:
